@@ -10,12 +10,12 @@ git -C /repo worktree add --detach $WT HEAD -q || exit 2
 cd $WT
 echo "## demo WITHOUT the change"
 cp $SD/zz_seed_demo_test.go $PKG/
-go test -vet=off -count=1 -run 'TestSeedDemo' ./$PKG/ 2>&1 | tail -3
+go test -vet=off -count=1 -run "TestSeed" ./$PKG/ 2>&1 | tail -3
 echo "## apply patch"
 git apply $SD/patch.diff || { echo "PATCH DOES NOT APPLY"; exit 2; }
 go build ./... || { echo "BUILD FAILS"; exit 2; }
 echo "## demo WITH the change"
-go test -vet=off -count=1 -run 'TestSeedDemo' ./$PKG/ 2>&1 | tail -4
+go test -vet=off -count=1 -run "TestSeed" ./$PKG/ 2>&1 | tail -4
 rm -f $PKG/zz_seed_demo_test.go
 echo "## existing tests of touched packages WITH the change"
 for p in $TOUCHED; do go test -vet=off -count=1 ./$p/ 2>&1 | tail -1; done
